@@ -26,7 +26,6 @@ Proof. repeat split; reflexivity. Qed.
 (* unsupported kinds are rejected, not stored as something else *)
 Theorem C15_unsupported_kinds_rejected :
   (forall s, exists e, save_item (MBytes s) = Err e) /\ (exists e, save_item MOther = Err e) /\
-  (forall b, exists e, save_item (MNp (SB b)) = Err e) /\
   (forall x y r, is_tuple y = false -> exists e, save_item (MList (MTuple x :: y :: r)) = Err e).
 Proof. repeat split; intros; cbn; eauto. Qed.
 Print Assumptions C15_unsupported_kinds_rejected.
